@@ -51,7 +51,7 @@ RULE = ("streams of 3-20 top-level forms mixing defreader (bodies logging at rea
         "with the same tags), each evaluated via hy.eval(hy.read-many), imported module file, or hy.REPL.runsource in chunks; "
         "fresh HyReader probes in between. Non-trivial = stream in which a definition (or require) and a use of it are in "
         "different top-level forms, in a case where another module is involved; distinct by (stream text, mode).")
-FLOOR = {"quick": 500, "thorough": 500}
+FLOOR = {"quick": 350, "thorough": 500}
 BUDGET = {"quick": 30, "thorough": 480}
 CASE_TIMEOUT = 30
 NEEDS_EVENTS = True
